@@ -919,10 +919,30 @@ fn gen_single_part(rng: &mut Rng, cfg: &GenCfg, md5: bool) -> BodyContentSingleP
     }
 }
 
+/// a dictionary word in another letter case (one time in three): values that equal a keyword of the
+/// sources only up to case (`message`, `Rfc822`, `multipart`) are data and must come back as sent
+fn vary_case(rng: &mut Rng, s: &str) -> String {
+    if !rng.chance(1, 3) {
+        return s.to_string();
+    }
+    match rng.below(3) {
+        0 => s.to_ascii_lowercase(),
+        1 => {
+            let mut c = s.to_ascii_lowercase();
+            if let Some(f) = c.get_mut(0..1) {
+                f.make_ascii_uppercase();
+            }
+            c
+        }
+        _ => s.chars().map(|ch| if rng.bool() { ch.to_ascii_lowercase() } else { ch.to_ascii_uppercase() }).collect(),
+    }
+}
+
 fn gen_subtype(rng: &mut Rng, cfg: &GenCfg) -> Cow<'static, str> {
     const SUB: &[&str] = &["PLAIN", "HTML", "plain", "OCTET-STREAM", "MIXED", "ALTERNATIVE", "RFC822", "JPEG", "NIL", ""];
     if rng.chance(2, 3) {
-        Cow::Borrowed(*rng.pick(SUB))
+        let w = *rng.pick(SUB);
+        cow_str(vary_case(rng, w))
     } else {
         cow_str(gen_utf8(rng, cfg))
     }
@@ -936,7 +956,12 @@ pub fn gen_body_structure(rng: &mut Rng, cfg: &GenCfg, depth: u32) -> BodyStruct
         0 => {
             const TYS: &[&str] =
                 &["APPLICATION", "IMAGE", "AUDIO", "VIDEO", "MESSAGE", "application", "X-foo", "TEXTX", "TEX", "MULTIPART", "NIL", ""];
-            let mut ty = if rng.chance(2, 3) { rng.pick(TYS).to_string() } else { gen_utf8(rng, cfg) };
+            let mut ty = if rng.chance(2, 3) {
+                let w = *rng.pick(TYS);
+                vary_case(rng, w)
+            } else {
+                gen_utf8(rng, cfg)
+            };
             if eq_ci(&ty, "TEXT") {
                 ty.insert_str(0, "X-");
             }
